@@ -457,6 +457,28 @@ def c06(prop, tier, seed):
         tasks.append(lambda tag=tag, env=env: sim_e2(R, "ThpoolMC.tla", tag + ".cfg", tag + ".sim", thpool_canon, exe, env,
                                                      300 if quick else 20000, 600, seed, workers=2))
     vplib.parallel(tasks, max_workers=8)
+    # memory-level races are outside the controlled replay (the scheduler serialises everything): real threads under TSan observe them
+    sexe = vplib.build("stress_thpool", ["utils", "structs", "thpool"], ["stress_thpool.c"], san="tsan")
+    rc, out, wall = vplib.sh([sexe, "25" if quick else "600", str(seed)], env={"TSAN_OPTIONS": "halt_on_error=0 exitcode=0 report_signal_unsafe=0"}, timeout=1200)
+    seen = set()
+    for summ in re.findall(r"SUMMARY: ThreadSanitizer: ([^\n]*)", out):
+        key = re.sub(r"0x[0-9a-f]+", "", summ)
+        if key not in seen:
+            seen.add(key)
+            rp = vplib.replay_path(R.prop, "stress.tsan.%d" % len(seen))
+            open(rp, "w").write(out[-20000:])
+            R.mismatch("c06-tsan:" + re.sub(r"[^A-Za-z0-9_.]+", "-", key)[:80], rp, "ThreadSanitizer (real-thread stress): " + summ[:200])
+    for line in out.splitlines():
+        if line.startswith("STRESS-FAIL"):
+            rp = vplib.replay_path(R.prop, "stress.fail")
+            open(rp, "w").write(out[-20000:])
+            R.mismatch("c06-stress:" + re.sub(r"[^A-Za-z0-9_.]+", "-", line[12:60]), rp, line[:300])
+            break
+    m = re.search(r"STRESS (\{.*\})", out)
+    if not m and not R.mismatches:
+        raise Broken("thread-pool stress died rc=%s:\n%s" % (rc, out[-2000:]))
+    if m:
+        R.extra["tsan_stress"] = dict(json.loads(m.group(1)), wall_s=round(wall, 1))
     R.rule = ("(.sim: 4 workers, 5 tasks, 2 submitters: complete schedules sampled by TLC's simulation mode and replayed) "
               "programs = complete schedules (paths from the initial to a terminal state) of the dumped TLC graph of Thpool.tla at "
               "pthread-operation granularity, executed on the real thpool.c under a cooperative scheduler: depth-first enumeration "
@@ -464,7 +486,7 @@ def c06(prop, tier, seed):
               "random schedules, for 8 flavours (lazy/eager x detached/joinable x wait-all/current) x %d (threads, tasks, submitters) "
               "sizes; non-trivial = a worker slept in cond_wait and was woken (signal, broadcast or spuriously)" % (budget, walks, len(sizes)))
     R.assumptions = ["handle not used concurrently with its own destruction (documented precondition: free after all submitters returned)",
-                     "pthread primitives behave as specified (virtualised by the scheduler); memory-level races are observed by TSan only in the real-thread stress",
+                     "pthread primitives behave as specified (virtualised by the scheduler); memory-level races are observed by TSan in the real-thread stress (harness/stress_thpool.c: random pools / submitters / tasks for the 8 flavours, schedules as they come)",
                      "ASan/UBSan + allocator ledger attached to every schedule"]
     return R.finish()
 
